@@ -215,6 +215,26 @@ def find_apis(src, names):
     return out
 
 
+def find_callbacks(src, names):
+    """pub fns that take a closure which is shown references into the cache (`F: FnMut(&K, &V) -> bool`,
+    `F: FnOnce(&mut V) -> R`): the lifetime of every reference parameter of the closure type."""
+    out = []
+    for m in re.finditer(r"\n    pub fn\s+(\w+)\s*(<[^(]*>)?\s*\((.*?)\)\s*(?:->\s*[^{]*?)?\s*(where.*?)?\{", src, flags=re.S):
+        name, gen, args, where = m.groups()
+        text = " ".join(((gen or "") + " " + (where or "")).split())
+        for mm in re.finditer(r"\bFn(?:Mut|Once)?\s*\(([^)]*)\)", text):
+            params = split_top(mm.group(1))
+            lts = []
+            for prm in params:
+                r = re.match(r"&\s*('\w+)?\s*(mut\s+)?", prm.strip())
+                if r:
+                    lt = r.group(1)
+                    lts.append(".elided" if lt is None or lt == "'_" else (".static_" if lt == "'static" else f"(.named {names.lt(lt)})"))
+            if lts:
+                out.append((name, lts))
+    return out
+
+
 def main():
     src_dir, out_path = sys.argv[1], sys.argv[2]
     names = Names()
@@ -234,6 +254,10 @@ def main():
         apis = find_apis(lib, names)
         if not apis:
             raise Err("no borrowing API found")
+        callbacks = find_callbacks(lib, names)
+        for need in ("retain", "mutate"):
+            if need not in [c[0] for c in callbacks]:
+                raise Err(f"pub fn {need}: no closure parameter that takes references found")
     except Err as e:
         print(f"decls.py: {e}")
         return 1
@@ -267,6 +291,11 @@ def main():
         rows.append(f"  -- pub fn {name}\n  {{ name := {names.fn(name)}, recv := {recv}, recvLt := {rl}, "
                     f"fnLifetimes := [{', '.join(str(names.lt(l)) for l in fn_lts)}], outs := [{', '.join(outs)}] }}")
     L.append(",\n".join(rows))
+    L.append("]")
+    L.append("")
+    L.append("/-- per function taking a closure that is shown references into the cache: the lifetimes of the closure's reference parameters -/")
+    L.append("def callbacks : List (Nat × List OutLt) := [")
+    L.append(",\n".join(f"  -- pub fn {name}\n  ({names.fn(name)}, [{', '.join(lts)}])" for name, lts in callbacks))
     L.append("]")
     L.append("")
     L.append("def table : Table := { structs := structs, impls := impls, apis := apis }")
